@@ -368,6 +368,7 @@ class Interp:
         self.models = models
         self.stats = stats
         self.depth = 0
+        self.stack_names = []
         self.oracles = {}
         self.env = {}       # harness-provided environment (oracle tables, flags)
         self._ov_cache = {}
@@ -791,7 +792,16 @@ class Interp:
             raise Unsupported("function %s has unparsed MIR: %s" % (fn.name, fn.errors[0][:200]))
         self.stats.functions[fn.name] = fn.text_hash
         self.depth += 1
+        self.stack_names.append(fn.name)
         if self.depth > 60:
+            from collections import Counter
+            top, n = Counter(self.stack_names).most_common(1)[0]
+            del self.stack_names[-1]
+            self.depth -= 1
+            if n >= 20:
+                # the same function 20 times on a stack of 60 frames with the arguments of this path: unbounded recursion within
+                # this bound - natively a stack overflow (abort) or a call that never returns
+                raise PanicPath("unbounded recursion: %s is on the call stack %d times (stack overflow / never returns)" % (top, n))
             raise Unsupported("call depth exceeded in %s" % fn.name)
         fr = Frame(fn)
         if len(args) != len(fn.params):
@@ -873,6 +883,8 @@ class Interp:
                 bb = nxt
         finally:
             self.depth -= 1
+            if self.stack_names:
+                self.stack_names.pop()
 
     def _not(self, c):
         if isinstance(c, bool):
